@@ -459,7 +459,9 @@ Proof.
     pose proof (call_att (r_cfg r) (lookup r) (r_now r) (r_dealer r) s req opts proc args kw oracle LOK Hsid) as CA.
     destruct (call _ _ _ _ _ _ _ _ _ _ _) as [d o|o|d callee o] eqn:Ecall; cbn [call_out] in CA.
     + exact CA.
-    + pose proof (leave_att r (s_id s) k W I) as L. destruct (leave r (s_id s)) as [r1 o1]. cbn [snd] in *.
+    + destruct (call_abort_realm_wf r s req opts proc oracle k W I) as (Wa & Ia & La). cbv zeta in Wa, Ia, La.
+      pose proof (leave_att _ (s_id s) k Wa Ia) as L. rewrite La in L.
+      destruct (leave _ (s_id s)) as [r1 o1]. cbn [snd] in *.
       now apply to_att_app.
     + destruct (call_invoked_wf r s req opts proc args kw oracle k d callee o W I Hk Hs Ecall) as (W2 & J2 & Lk & _ & Hcl).
       eapply to_att_mono; [intros x; apply (proj1 (Lk x))|].
